@@ -22,6 +22,9 @@ func (i *interpreter) lookupExternal(fn *ssa.Function, name string) externalFn {
 	if e, ok := symExternals[name]; ok {
 		return e
 	}
+	if e, ok := bigExternals[name]; ok {
+		return e
+	}
 	if o := fn.Origin(); o != nil && o != fn {
 		if e, ok := symExternals[o.String()]; ok {
 			return e
@@ -139,6 +142,32 @@ func init() {
 			fr.i.requireUnguarded("yield")
 			fr.i.yield(false)
 			return nil
+		},
+		// HexString(n, limbs...) returns a stand-in for the n-digit text "0x<hex>" of the
+		// value whose little-endian 64-bit limbs are given; big.Int.SetString
+		// recognises it and yields that (symbolic) value.
+		"HexString": func(fr *frame, args []value) value {
+			i := fr.i
+			n := int(asInt64(args[0]))
+			limbs := args[1].([]value)
+			var t *Term
+			for k := len(limbs) - 1; k >= 0; k-- {
+				lt, _ := i.termOf(limbs[k])
+				t = i.tt.Concat(t, lt)
+			}
+			if 4*n > t.W || n < 1 {
+				panic(engineError("HexString: more digits than limb bits"))
+			}
+			if 4*n < t.W {
+				i.assume(i.tt.Eq(i.tt.Extract(t, t.W-1, 4*n), i.tt.Zero(t.W-4*n)))
+				t = i.tt.Extract(t, 4*n-1, 0)
+			}
+			id := len(i.hexTexts)
+			if id >= 15 {
+				panic(engineError("HexString: too many symbolic texts"))
+			}
+			i.hexTexts = append(i.hexTexts, t)
+			return "0x" + strings.Repeat(string([]byte{0xf0 + byte(id)}), n)
 		},
 		"Ite64": func(fr *frame, args []value) value {
 			i := fr.i
